@@ -36,13 +36,7 @@ ImageDetermined(v, fmt, e) == e = "le" \/ BEOrderDetermined(TextContent(v, fmt, 
 
 \* ------------------------------------------------------------------ reference reader of an archive content
 ErrT == [ok |-> FALSE]
-\* end (1-based index of the terminator start) of the message starting at 1-based p, 0 if unterminated
-RECURSIVE Utf16End(_, _)
-Utf16End(d, p) ==
-  IF p + 1 > Len(d) THEN 0
-  ELSE IF d[p] = 0 /\ d[p + 1] = 0 THEN p
-  ELSE Utf16End(d, p + 2)
-UnitsOf(b) == [k \in 1..(Len(b) \div 2) |-> b[2 * k - 1] + 256 * b[2 * k]]
+\* (Utf16End / UnitsOf: module Bytes)
 
 LabelAt(c, a) == IF \E i \in 1..Len(c.labels) : c.labels[i][1] = a
                  THEN (CHOOSE l \in { c.labels[i] : i \in 1..Len(c.labels) } : l[1] = a)[2]
